@@ -14,6 +14,7 @@ class Clock:
     def __init__(self, prefix="dt"):
         self.now = fresh_real("%s_t0" % prefix, 0)
         self.wall = fresh_real("%s_wall0" % prefix, 0)
+        self.t0, self.wall0 = self.now, self.wall  # the two clocks advance together: wall - wall0 == now - t0
         self.n = 0
         self.prefix = prefix
         self.reads = []
